@@ -535,6 +535,32 @@ theorem get_offline_stored (n : Net) (cd : CacheDir) (url : Text) (tok : Option 
     have := List.mem_filter.mp hm
     exact ⟨s, this.1, by simpa using this.2, hb⟩
 
+/-- **(b)** an offline read of a remote index never goes through the memo: what it returns is what
+`parseRepositoryIndex` says — under the keys and options of *this* read — about a file of the cache directory.
+So an offline run accepts a stored index only if an online run with the same options, served those bytes, accepts
+it; that an earlier run stored the file (and whether that run verified, rejected or ignored it) does not matter. -/
+theorem offline_read_is_parse_of_stored (K : Keying) (C : Crypto) (R : Codec) (n : Net) (reader owner : Apk)
+    (st : State) (repo : Text) (r : Res)
+    (hoff : n.offline = true) (hr : isRemote (indexURL repo owner.arch) = true)
+    (h : (readIndex K C R n reader owner st repo).1 = .res r) :
+    ∃ s ∈ st.cd, s.url = indexURL repo owner.arch ∧
+      r = parseIndex C R owner.keys (readOpts reader owner) (indexURL repo owner.arch) owner.arch s.body := by
+  unfold readIndex at h
+  simp only [probe, hr, hoff, if_true] at h
+  cases hany : (st.cd.any fun s => s.url == indexURL repo owner.arch) with
+  | false => simp [hany] at h
+  | true =>
+    simp only [hany, if_true, Option.map_none, Option.bind_none] at h
+    cases hg : Glue.get n st.cd (indexURL repo owner.arch) none with
+    | mk ob cd' =>
+      rw [hg] at h
+      cases ob with
+      | none => simp at h
+      | some b =>
+        simp only [Outcome.res.injEq] at h
+        obtain ⟨_, s, hs, hu, hb⟩ := get_offline_stored n st.cd _ none b cd' hoff hr hg
+        exact ⟨s, hs, hu, by rw [hb]; exact h.symm⟩
+
 /-! ## option plumbing of `build.New` -/
 
 /-- without `--ignore-signatures` and without a base image, every index read of every resolution between
